@@ -157,7 +157,7 @@ def stepLine (d : DState) (line : String) : DState × String :=
         if d.pendingRules == 1 then
           -- a new program comes with an engine restart
           let st := match step (program acc) d.st .restart with | some s => s | none => d.st
-          ({ d with rules := acc, acc := [], pendingRules := 0, st := st }, if wf acc then "ok wf" else "ok notwf")
+          ({ d with rules := acc, acc := [], pendingRules := 0, st := st }, (if wf acc then "ok wf" else "ok notwf") ++ (if det acc then " det" else " nondet"))
         else ({ d with acc := acc, pendingRules := d.pendingRules - 1 }, "")
       | none => (d, "bad-rule")
     | _ => (d, "bad-rule")
